@@ -2,6 +2,7 @@ package c10
 
 import (
 	"bytes"
+	"os"
 	"errors"
 	"fmt"
 	"math/rand"
@@ -22,6 +23,9 @@ import (
 // /Length) or by the minimal writer of the C09 driver (object numbers up to
 // 2^24-1, any generation), must open in the real Reader with both passwords
 // and give back the plaintexts.
+
+// dumpForeign (debugging) names a file that receives the bytes built last.
+var dumpForeign = os.Getenv("C10_DUMP_FOREIGN")
 
 type foreignCase struct {
 	Scheme int    `json:"scheme"`
@@ -156,7 +160,7 @@ func runForeign(c foreignCase) (rec Record) {
 				delete(dicts, ref)
 			}
 		}
-		for n := uint32(5); n <= 10; n++ {
+		for n := uint32(5); n <= 11; n++ {
 			define(&rev1, n)
 		}
 		doc.Revisions = append(doc.Revisions, rev1)
@@ -174,6 +178,8 @@ func runForeign(c foreignCase) (rec Record) {
 		doc.Revisions = append(doc.Revisions, rev2)
 		// update 2: the freed numbers come back with generation 1
 		rev3 := ser.Revision{Kind: rev2.Kind, Trailer: trl()}
+		// (only numbers of the first revision: the serialiser lists unused
+		// numbers below its own auxiliary objects as free, some with generation 65535)
 		define(&rev3, 5)
 		define(&rev3, 6)
 		define(&rev3, 11)
@@ -197,6 +203,9 @@ func runForeign(c foreignCase) (rec Record) {
 			return rec
 		}
 		file = res.Bytes
+	}
+	if dumpForeign != "" {
+		_ = os.WriteFile(dumpForeign, file, 0o644)
 	}
 
 	owner := c.Owner
